@@ -190,6 +190,7 @@ def scripts_from_tlc(n_walks, n_pick, first_id=1, cfg="Timing_sim.cfg"):
                       "toks": [e["tok"] for e in h], "resp": [e["r"] for e in h], "exp": [e["d"] for e in h],
                       "pa": [e["a"] - e["tok"] for e in h], "pb": [e["b"] - e["tok"] for e in h], "fin": w["fin"],
                       "lz": [e["lz"] for e in h], "starts": sorted(w["startAt"][:w["ninst"]]), "mw": mw,
+                      "grpc": bool(mw and cid % 2 == 1),    # pacing cases alternate between the http and the grpc scenario gun
                       # pacing cases: every third shot is answered with 500, so the scenario's assert/response fails and
                       # the scenario is aborted (an input dimension; the model's shot lasts max(response, MinWait) either way)
                       "fail": [1 if mw and e["d"] == "fire" and (cid + e["k"]) % 3 == 0 else 0 for e in h],
@@ -197,7 +198,7 @@ def scripts_from_tlc(n_walks, n_pick, first_id=1, cfg="Timing_sim.cfg"):
                           [e["tok"] for e in h], [e["r"] for e in h],
                           (" desched_after_next=%s" % [e["lz"] for e in h]) if lazy else "", w["ninst"], key) +
                               (" instance_starts=%s" % w["startAt"][:w["ninst"]] if max(w["startAt"]) > 0 else "") +
-                              (" REAL http/scenario gun, min_waiting_time=%d ms" % (mw * 100) if mw else "")})
+                              (" REAL %s/scenario gun, min_waiting_time=%d ms" % ("grpc" if cid % 2 == 1 else "http", mw * 100) if mw else "")})
     return cases, len(walks)
 
 
@@ -376,7 +377,8 @@ def run(tier, v):
                                  sum(1 for r_ in rows if r_["ev"] == "conf" and r_["key"] == k_ and r_["run"] < CANARY)
                                  for k_ in ("absent", "true", "false")},
         "trace_spec_canary_violations_flagged": rep["canary"],
-        "pacing_scripts_real_scenario_gun": sum(1 for c in scripts if c.get("mw")),
+        "pacing_scripts_real_scenario_gun": {"http": sum(1 for c in scripts if c.get("mw") and not c.get("grpc")),
+                                             "grpc": sum(1 for c in scripts if c.get("mw") and c.get("grpc"))},
         "pacing_shots_observed": sum(1 for r_ in toks if r_.get("mw", 0) > 0 and r_["d"] == "fire"),
         "pacing_shots_aborted_by_failed_step": sum(sum(c["fail"]) for c in scripts if c.get("mw")),
         "slow_worker_runs_3_instances": sum(1 for c in cases.values() if c.get("slowms")),
